@@ -123,8 +123,9 @@ def capped_while(fn: ast.FunctionDef | None, test_name: str | None, counter: str
     return "none", 0
 
 
-def defer_sites(checker: ast.Module) -> tuple[int, int, bool]:
-    """(number of `self.defer_node(...)` calls, how many are guarded, deferred_nodes appended only in defer_node)"""
+def defer_sites(checker: ast.Module, sites: list | None = None) -> tuple[int, int, bool]:
+    """(number of `self.defer_node(...)` calls, how many are guarded, deferred_nodes appended only in defer_node);
+    `sites` (if given) receives one `{"function", "line", "guarded"}` record per call site"""
     parents: dict[ast.AST, ast.AST] = {}
     for p in ast.walk(checker):
         for c in ast.iter_child_nodes(p):
@@ -156,6 +157,11 @@ def defer_sites(checker: ast.Module) -> tuple[int, int, bool]:
                     break
                 child, p = p, parents.get(p)
             guarded += ok
+            if sites is not None:
+                q = parents.get(n)
+                while q is not None and not isinstance(q, ast.FunctionDef):
+                    q = parents.get(q)
+                sites.append({"function": q.name if q is not None else None, "line": n.lineno, "guarded": bool(ok)})
     # deferred_nodes only grows in defer_node (assignments `= []` / `= todo` elsewhere are resets)
     only = True
     for fn in ast.walk(checker):
@@ -369,7 +375,8 @@ def collect() -> dict:
     if ptf is not None and not _calls(ptf, "report_hang"):
         fn_op = "none"
     fg_op, fg_line = capped_while(_func(upd, "propagate_changes_using_dependencies"), None, "num_iter", "MAX_ITER", "raise")
-    total, guarded, only = defer_sites(chk)
+    site_list: list = []
+    total, guarded, only = defer_sites(chk, site_list)
     cls_ok, fg_last, others = last_pass_assignments()
     core = _const(sm, "core_modules")
     vals = {
@@ -405,7 +412,7 @@ def collect() -> dict:
     ex = exits()
     return {
         **vals, "topOp": top_op, "funcOp": fn_op, "fgOp": fg_op,
-        "deferSites": total, "deferSitesGuarded": guarded, "deferredOnlyInDeferNode": only,
+        "deferSites": total, "deferSitesGuarded": guarded, "deferredOnlyInDeferNode": only, "deferSiteList": site_list,
         "lastPassClassAttr": cls_ok, "otherLastPassAssignments": others,
         "secondPassRecognised": second_pass_recognised(chk), "deferGuarded": defer_guarded,
         "sccLoopRecognised": scc_loop_recognised(bld), "exits": ex, "foldGuard": fold_probe(),
